@@ -71,6 +71,14 @@ def draw_case(rng, variant=None, dim=None, zero_error=False, allow_latlon=True):
     if rng.random() < 0.3 and variant != "Detrended":
         c["norm"] = str(rng.choice(["LogNormal", "BoxCox", "YeoJohnson"]))
         c["norm_p"] = {} if c["norm"] == "LogNormal" else {"lmbda": float(rng.choice([0.0, 0.5, 1.5]))}
+    # the unit of the variable is the user's: variances of 1e-10 (conductivities in m/s) or 1e6 are ordinary data
+    # (simple kriging only: with unbiasedness rows of ones / drift values the system matrix mixes the variable's unit with pure
+    # numbers, and its conditioning - hence the attainable accuracy - legitimately depends on the unit)
+    if c["norm"] == "Normalizer" and variant == "Simple" and rng.random() < 0.5:
+        us = float(rng.choice([1e-10, 1e-5, 1e6]))
+        c["unit_scale"] = us
+        md["var"] = float(md["var"] * us)
+        md["nugget"] = float(md["nugget"] * us)
     return c
 
 
@@ -173,7 +181,8 @@ def build(c, n_targets=12, targets=None, structured=False):
     mean_arg, fmean = _fun(c["mean"], fdim, rng)
     trend_arg, ftrend = _fun(c["trend"], fdim, rng)
     b.fmean, b.ftrend = fmean, ftrend
-    z = rng.normal(0.0, 0.6, size=n)
+    us = float(c.get("unit_scale", 1.0))
+    z = rng.normal(0.0, 0.6, size=n) * math.sqrt(us)
     b.z = z
     with np.errstate(all="ignore"):
         cv = np.asarray(ftrend(*cp), dtype=float) + onorm.inverse(c["norm"], c["norm_p"], np.asarray(fmean(*cp), dtype=float) + z)
@@ -198,33 +207,39 @@ def build(c, n_targets=12, targets=None, structured=False):
     if c["cond_err"] == "nugget":
         cerr_arg, cerr = "nugget", md["nugget"]
     elif c["cond_err"] == "scalar":
-        v = round(float(rng.uniform(0.01, 0.3)), 3)
+        v = round(float(rng.uniform(0.01, 0.3)), 3) * us
         cerr_arg, cerr = v, v
     else:
-        v = np.round(rng.uniform(0.01, 0.3, size=n), 3)
+        v = np.round(rng.uniform(0.01, 0.3, size=n), 3) * us
         cerr_arg, cerr = v, v
     b.cond_err = cerr
     pinv = c["pinv"]
     pinv_arg = (lambda m: np.linalg.pinv(m)) if pinv == "callable" else pinv
     common_kw = dict(normalizer=normalizer, trend=trend_arg, exact=c["exact"], cond_err=cerr_arg, pseudo_inv=c["pseudo_inv"], pseudo_inv_type=pinv_arg)
+    cp_arg, cv_arg = np.array(cp, dtype=np.double, order="C"), np.array(cv, dtype=np.double)
+    ext_arg = ext_c  # (the object keeps a reference to the drift values at the conditions; a later set_condition() re-reads them)
     v = c["variant"]
     b.unbiased = v in ("Ordinary", "Universal", "ExtDrift") or (v == "Generic" and c.get("unbiased", True))
     with warnings.catch_warnings():
         warnings.simplefilter("ignore")
         if v == "Simple":
-            k = gs.krige.Simple(model, cp, cv, mean=0.0 if mean_arg is None else mean_arg, **common_kw)
+            k = gs.krige.Simple(model, cp_arg, cv_arg, mean=0.0 if mean_arg is None else mean_arg, **common_kw)
         elif v == "Ordinary":
-            k = gs.krige.Ordinary(model, cp, cv, **common_kw)
+            k = gs.krige.Ordinary(model, cp_arg, cv_arg, **common_kw)
         elif v == "Universal":
-            k = gs.krige.Universal(model, cp, cv, drift_arg, **common_kw)
+            k = gs.krige.Universal(model, cp_arg, cv_arg, drift_arg, **common_kw)
         elif v == "ExtDrift":
-            k = gs.krige.ExtDrift(model, cp, cv, ext_c, **common_kw)
+            k = gs.krige.ExtDrift(model, cp_arg, cv_arg, ext_arg, **common_kw)
         elif v == "Detrended":
             kw2 = {kk: vv for kk, vv in common_kw.items() if kk not in ("normalizer", "trend")}
-            k = gs.krige.Detrended(model, cp, cv, trend_arg, **kw2)
+            k = gs.krige.Detrended(model, cp_arg, cv_arg, trend_arg, **kw2)
         else:
-            k = gs.krige.Krige(model, cp, cv, drift_functions=drift_arg, ext_drift=ext_c, mean=mean_arg, unbiased=c.get("unbiased", True), **common_kw)
+            k = gs.krige.Krige(model, cp_arg, cv_arg, drift_functions=drift_arg, ext_drift=ext_arg, mean=mean_arg, unbiased=c.get("unbiased", True), **common_kw)
     b.krige = k
+    # the arrays handed over are the caller's: what happens to them later is not the object's business
+    cp_arg *= 1.7
+    cp_arg += 3.0
+    cv_arg[:] = -2.0 * cv_arg + 1.0
     # targets
     if targets is not None:
         tp = np.asarray(targets, dtype=float)
@@ -245,6 +260,13 @@ def build(c, n_targets=12, targets=None, structured=False):
     m = tp.shape[1]
     b.ext_tgt = rng.normal(size=(ned, m)) if ned else None
     b.call_kw = {"ext_drift": b.ext_tgt} if ned else {}
+    if ned and b.mesh_type == "structured":
+        # a drift raster on the target grid, in whatever memory order the user's data come (C, Fortran / transposed files)
+        lay = str(rng.choice(["flat", "grid-C", "grid-F"]))
+        if lay != "flat":
+            grid_drift = b.ext_tgt.reshape((ned,) + tuple(b.shape))
+            b.call_kw = {"ext_drift": np.asfortranarray(grid_drift) if lay == "grid-F" else np.ascontiguousarray(grid_drift)}
+        b.ext_layout = lay
     b.rng = rng
     return b
 
